@@ -82,12 +82,30 @@ Proof.
       destruct (errcode_of_u16 (c * 256 + d)) eqn:Ec; [|reflexivity].
       assert (Hr : errcode_of_u16 (c * 256 + d) <> None) by (rewrite Ec; discriminate).
       apply errcode_accepted_range in Hr. lia. }
-  destruct ((a * 256 + b =? 1) || (a * 256 + b =? 2)) eqn:E12; [|discriminate].
-  assert (Ho : o = OpRrq \/ o = OpWrq) by (destruct o; auto; exfalso; lia).
-  destruct (decode_total (a :: b :: rest)) as [[p Hp]|[e [He _]]]; [|exists e; exact He].
-  exfalso. rewrite decode_cons2, Eo in Hp.
-  apply Nat.ltb_lt in H.
-  destruct Ho; subst o; apply parse_rq_ok_count in Hp; cbn [skipn] in Hp; lia.
+  assert (Hlast : forall pre, a :: b :: rest = pre ++ [0] -> rest <> [] -> unterminated rest = false).
+  { intros pre Hpre Hne. unfold unterminated.
+    assert (Hl : last (a :: b :: rest) 1 = 0) by (rewrite Hpre; apply last_last).
+    destruct rest as [|c rest']; [contradiction|]. cbn [last] in Hl. cbn [last]. rewrite Hl. reflexivity. }
+  destruct ((a * 256 + b =? 1) || (a * 256 + b =? 2)) eqn:E12.
+  - assert (Ho : o = OpRrq \/ o = OpWrq) by (destruct o; auto; exfalso; lia).
+    destruct (decode_total (a :: b :: rest)) as [[p Hp]|[e [He _]]]; [|exists e; exact He].
+    exfalso. rewrite decode_cons2, Eo in Hp.
+    apply orb_prop in H. destruct H as [H|H].
+    + apply Nat.ltb_lt in H.
+      destruct Ho; subst o; apply parse_rq_ok_count in Hp; cbn [skipn] in Hp; lia.
+    + assert (Hend : exists pre, a :: b :: rest = pre ++ [0]) by (destruct Ho; subst o; eapply parse_rq_end; exact Hp).
+      destruct Hend as (pre & Hpre).
+      destruct rest as [|c rest']; [|rewrite (Hlast pre Hpre) in H; [discriminate|discriminate]].
+      destruct pre as [|x [|y pre']]; cbn [app] in Hpre; try discriminate.
+      * injection Hpre as _ Hb. lia.
+      * injection Hpre as _ _ Hnil. destruct pre'; discriminate.
+  - assert (o = OpOack) by (destruct o; auto; exfalso; lia). subst o.
+    destruct rest as [|c rest']; [discriminate|].
+    destruct (decode_total (a :: b :: c :: rest')) as [[p Hp]|[e [He _]]]; [|exists e; exact He].
+    exfalso. rewrite decode_cons2, Eo in Hp. unfold parse_oack in Hp.
+    destruct (parse_opts (length (a :: b :: c :: rest')) (a :: b :: c :: rest') 1) as [os|e| |] eqn:E3; cbn [bind] in Hp; try discriminate.
+    destruct (parse_opts_end _ _ _ _ E3 ltac:(cbn [length]; lia)) as [Hend|(pre & Hpre)]; [cbn [length] in Hend; lia|].
+    rewrite (Hlast pre Hpre) in H; discriminate.
 Qed.
 
 (** The C10 monitor accepts every behaviour of the decoder model: for every byte
